@@ -118,3 +118,14 @@ Definition tdel (t : table) (e ty : Z) : table :=
 Definition towns (t : table) (e : Z) : bool := amem e t.
 (* all attached instances, with their slot *)
 Definition tinsts (t : table) : list Z := flat_map (fun er => map snd (snd er)) t.
+
+(* get(ty): every (entity, component) whose slot of exact type ty is occupied *)
+Definition tall (t : table) (ty : Z) : list (Z * Z) :=
+  flat_map (fun er => match alookup ty (snd er) with Some i => [(fst er, i)] | None => [] end) t.
+Definition pz_eqb (a b : Z * Z) : bool := (fst a =? fst b) && (snd a =? snd b).
+Definition pperm_b := perm_b pz_eqb.
+Lemma pz_eqb_spec a b : pz_eqb a b = true <-> a = b.
+Proof.
+  destruct a as [a1 a2], b as [b1 b2]. unfold pz_eqb. cbn.
+  rewrite andb_true_iff, !Z.eqb_eq. split; [intros [-> ->]; reflexivity|now intros [= -> ->]].
+Qed.
